@@ -58,6 +58,8 @@ type robustOutcome struct {
 	End     string // rejected | newtransform-error | eof | fatal | unbounded
 }
 
+var xpathArithPanic = regexp.MustCompile(`reflect\.Value\.Convert: value of type \*xpath\.\w+ cannot be converted to type float64`)
+
 func runRobust(schema, input []byte) robustOutcome {
 	var sch omniparser.Schema
 	var err error
@@ -205,6 +207,10 @@ func c03Drive(args []string) int {
 			key := "hang:" + o.Stage + ":" + name
 			if o.Panic != "" {
 				key = "panic:" + o.Site
+				if xpathArithPanic.MatchString(o.Panic) {
+					// one defect of the xpath engine reached from every query entry point: keyed by what it is, not by where
+					key = "panic:xpath-engine:arithmetic-on-node-set"
+				}
 			} else if o.End == "unbounded" {
 				key = "unbounded-reads:" + name
 			}
@@ -361,8 +367,31 @@ func c03Drive(args []string) int {
 		`{"parser_settings": {"version": "omni.2.1", "file_format_type": "edi"}, "file_declaration": {"segment_delimiter": "", "element_delimiter": "", "segment_declarations": [{"name": "A", "is_target": true}]}, "transform_declarations": {"FINAL_OUTPUT": {"object": {}}}}`,
 		`{"parser_settings": {"version": "omni.2.1", "file_format_type": "fixedlength2"}, "file_declaration": {"envelopes": [{"name": "g", "type": "envelope_group", "is_target": true, "child_envelopes": [{"name": "r", "rows": 0}]}]}, "transform_declarations": {"FINAL_OUTPUT": {"object": {}}}}`,
 	}
+	// every built-in custom function with every number of arguments 0..5, the arguments being constants, fields that
+	// match and fields that do not (nil values): a wrong call is a per-record failure or a schema error, never a panic
+	for _, fn := range []string{"lower", "upper", "concat", "coalesce", "uuidv3", "dateTimeToRFC3339", "dateTimeLayoutToRFC3339", "dateTimeToEpoch",
+		"epochToDateTimeRFC3339", "copy", "javascript", "javascript_with_context"} {
+		argKinds := []string{`{"const": "x"}`, `{"xpath": "nomatch"}`, `{"xpath": "v"}`, `{"xpath": "empty"}`, `{"const": "1", "type": "int"}`}
+		for nargs := 0; nargs <= 5; nargs++ {
+			for variant := 0; variant < 4; variant++ {
+				var as []string
+				for k := 0; k < nargs; k++ {
+					as = append(as, argKinds[(k*3+variant+nargs)%len(argKinds)])
+				}
+				ds := `{"parser_settings": {"version": "omni.2.1", "file_format_type": "json"}, "transform_declarations": {"FINAL_OUTPUT": {"xpath": "/*", "object": {"f": {"custom_func": {"name": "` +
+					fn + `", "args": [` + strings.Join(as, ", ") + `]}}}}}}`
+				in := `[{"v": "2020-01-02", "empty": ""}, {"v": "12", "empty": ""}, {"w": 1}]`
+				record("directed-schema", fmt.Sprintf("arity/%s/%d/%d", fn, nargs, variant), "custom_func arity", []byte(ds), []byte(in), runRobust([]byte(ds), []byte(in)))
+			}
+		}
+	}
+	// arithmetic on a node-set inside an xpath (a filter on the target, a predicate of a field)
+	for _, xp := range []string{"/r/a[b mod 2 = 1]", "/r/a[b + 1 = 2]", "/r/a[-b = -1]"} {
+		directed = append(directed, `{"parser_settings": {"version": "omni.2.1", "file_format_type": "xml"}, "transform_declarations": {"FINAL_OUTPUT": {"xpath": `+jstr(xp)+`, "object": {"x": {"xpath": "b"}}}}}`)
+	}
+	directed = append(directed, `{"parser_settings": {"version": "omni.2.1", "file_format_type": "xml"}, "transform_declarations": {"FINAL_OUTPUT": {"xpath": "/r/a", "object": {"x": {"xpath": ".[b * 2 = 2]/b"}}}}}`)
 	for di, ds := range directed {
-		for _, in := range []string{"", "a,b\n", "<a><b>1</b></a>", `{"a": [1, 2]}`, "A*1~A*2~"} {
+		for _, in := range []string{"", "a,b\n", "<a><b>1</b></a>", `{"a": [1, 2]}`, "A*1~A*2~", "<r><a><b>1</b></a><a><b>2</b></a></r>"} {
 			record("directed-schema", fmt.Sprintf("directed/%d", di), "directed", []byte(ds), []byte(in), runRobust([]byte(ds), []byte(in)))
 		}
 	}
